@@ -84,7 +84,7 @@ def alias_mods(nodes):
 
 
 _MUTATORS = ('add', 'append', 'pop', 'update', 'remove', 'discard', 'extend',
-             'insert', 'clear', 'setdefault', 'popleft', 'sort')
+             'insert', 'clear', 'setdefault', 'popleft', 'sort', 'extendleft')
 
 
 class StmtMixin:
